@@ -273,6 +273,8 @@ type AbsCase struct {
 	Units   []int      `json:"units"`
 	Glyphs  []string   `json:"glyphs"`
 	Mode    string     `json:"mode"`
+	Init    string     `json:"init"`
+	Ops     []HOp      `json:"ops"`
 }
 
 var macHigh []int // code points of Mac bytes 128..255 (x/text)
